@@ -457,10 +457,12 @@ def auto_discharge(f, site, prog=None):
             c = an.const_of(f, t["args"][1])
             if c is not None and isinstance(c.get("val"), int) and c["val"] > 0:
                 return "constant non-zero size %d" % c["val"]
-        if p in ("alloc::vec::Vec::<T>::with_capacity", "alloc::vec::Vec::<T, A>::with_capacity_in"):
+        if p in ("alloc::vec::Vec::<T>::with_capacity", "alloc::vec::Vec::<T, A>::with_capacity_in", "alloc::vec::from_elem"):
             # with_capacity(x.len()) for an existing in-memory collection x whose elements are at least as large as the new ones: x already
             # occupies len * size bytes (< isize::MAX), so the new capacity computation cannot overflow (allocation failure aborts, it does not panic)
-            l = op_local(t["args"][0]) if t["args"] else None
+            # (vec![x; n] = from_elem(x, n): the count is the second argument)
+            n_arg = (t["args"][1] if len(t["args"]) > 1 else None) if p == "alloc::vec::from_elem" else (t["args"][0] if t["args"] else None)
+            l = op_local(n_arg) if n_arg is not None else None
             d = f.single_def(f.copy_root(l)) if l is not None else None
             if d and d[0] == "call" and callee_name(d[2]["callee"]).split("::")[-1] == "min" and len(d[2]["args"]) == 2:
                 # min(a.len(), b.len()) is at most either length
@@ -478,6 +480,14 @@ def auto_discharge(f, site, prog=None):
                 need = _ty_size_upper(prog, m2.group(1)) if m2 else None
                 if have is not None and need is not None and need <= have:
                     return "capacity is the length of an existing %s (element size %d >= %d)" % (rty, have, need)
+                # a multi-valued command-line option: the vector is a field of a clap-derived argument struct, so it has at most one element per
+                # argv entry, and every argv entry is a heap-allocated OsString (24 bytes on its own): 24 * len < isize::MAX
+                tgt = f.resolve_ptr(rl) if rl is not None else None
+                root_ty = strip_ref(f.local_ty(tgt[0])) if tgt else ""
+                is_cli = tgt is not None and tgt[0] == 1 and f.argc >= 1 and root_ty.startswith("sfs::") and any(e[0] == "field" for e in tgt[1]) and \
+                    any((h_.impl_of or {}).get("trait") == "clap_builder::derive::Args" and (h_.impl_of or {}).get("self_adt") == root_ty for h_ in prog.fn_list)
+                if is_cli and need is not None and need <= 24:
+                    return "capacity is the number of values of a command-line option (%s): at most one per argv entry of >= 24 bytes, element size %d" % (root_ty, need)
         if p in ("core::option::Option::<T>::unwrap", "core::option::Option::<T>::expect", "core::result::Result::<T, E>::unwrap", "core::result::Result::<T, E>::expect"):
             # NonZero::try_from(const nonzero).unwrap()
             l = op_local(t["args"][0])
